@@ -6,7 +6,7 @@ cd "$(dirname "$0")"
 export CARGO_NET_OFFLINE=true
 (cd harness && cargo build --release --offline 2>&1 | tail -2)
 (cd harness && cargo build --release --offline --features miniwasm --target-dir target-mw 2>&1 | tail -2)
-(cd spec && for f in Trace MilkyWay OwnershipMC TreasuryMC ArithTrace; do tla-sany "$f.tla" >/dev/null 2>&1 || { echo "SANY failed: $f"; exit 1; }; done)
+(cd spec && for f in Trace MilkyWay OwnershipMC TreasuryMC ArithTrace HookAuthTrace ConfigMC; do tla-sany "$f.tla" >/dev/null 2>&1 || { echo "SANY failed: $f"; exit 1; }; done)
 python3 tools/mwcheck.py --warm quick
 # warm the C20 harness build and its TLC vector cache (its verdict is not setup's business)
 python3 tools/c20check.py quick > work/c20-setup.log 2>&1 || true
